@@ -23,13 +23,14 @@ Fixpoint qmin_list (d : Q) (l : list Q) : Q :=
   match l with [] => d | [a] => a | a :: t => qmin a (qmin_list d t) end.
 Fixpoint qmax_list (d : Q) (l : list Q) : Q :=
   match l with [] => d | [a] => a | a :: t => qmax a (qmax_list d t) end.
-Fixpoint qsum (l : list Q) : Q := match l with [] => 0 | a :: t => a + qsum t end.
+(* Qred only normalises the representation (Qred q == q); it keeps the extracted model's integers short *)
+Fixpoint qsum (l : list Q) : Q := match l with [] => 0 | a :: t => Qred (a + qsum t) end.
 
 (* rotation by the angle with cosine c and sine s, and by its opposite *)
-Definition rot (c s : Q) (p : pt) : pt := (c * fst p - s * snd p, s * fst p + c * snd p).
-Definition rot_back (c s : Q) (p : pt) : pt := (c * fst p + s * snd p, - s * fst p + c * snd p).
-Definition padd (p q : pt) : pt := (fst p + fst q, snd p + snd q).
-Definition psub (p q : pt) : pt := (fst p - fst q, snd p - snd q).
+Definition rot (c s : Q) (p : pt) : pt := (Qred (c * fst p - s * snd p), Qred (s * fst p + c * snd p)).
+Definition rot_back (c s : Q) (p : pt) : pt := (Qred (c * fst p + s * snd p), Qred (- s * fst p + c * snd p)).
+Definition padd (p q : pt) : pt := (Qred (fst p + fst q), Qred (snd p + snd q)).
+Definition psub (p q : pt) : pt := (Qred (fst p - fst q), Qred (snd p - snd q)).
 
 (* ---------- regions ---------- *)
 Inductive branch := B0 | B90 | Bgen.
@@ -60,28 +61,32 @@ Definition rect_to_polygon (xmin xmax ymin ymax : Q) (b : branch) (c s : Q) : li
   | _ => rect_corners_rot xmin xmax ymin ymax c s
   end.
 
-Definition bbox_keep (vs : list pt) (p : pt) : bool :=
-  let xs := map fst vs in
-  let ys := map snd vs in
-  Qleb (qmin_list 0 xs) (fst p) && Qleb (fst p) (qmax_list 0 xs) &&
-  Qleb (qmin_list 0 ys) (snd p) && Qleb (snd p) (qmax_list 0 ys).
+(* staged: the extrema are computed once per region, then the test is applied to each point *)
+Definition bbox_keep (vs : list pt) : pt -> bool :=
+  let x0 := Qred (qmin_list 0 (map fst vs)) in
+  let x1 := Qred (qmax_list 0 (map fst vs)) in
+  let y0 := Qred (qmin_list 0 (map snd vs)) in
+  let y1 := Qred (qmax_list 0 (map snd vs)) in
+  fun p => Qleb x0 (fst p) && Qleb (fst p) x1 && Qleb y0 (snd p) && Qleb (snd p) y1.
 
 (* the test applied to the points that pass the pre-filter in the general branch *)
 Definition rect_inner (xmin xmax ymin ymax c s : Q) (p : pt) : bool :=
   let q := rot_back c s (psub p (rect_center xmin xmax ymin ymax)) in
   Qleb (qabs (fst q)) (half (xmax - xmin)) && Qleb (qabs (snd q)) (half (ymax - ymin)).
 
-Definition rect_contains (xmin xmax ymin ymax : Q) (b : branch) (c s : Q) (p : pt) : bool :=
+Definition rect_contains (xmin xmax ymin ymax : Q) (b : branch) (c s : Q) : pt -> bool :=
   match b with
-  | B0 => Qltb xmin (fst p) && Qltb (fst p) xmax && Qltb ymin (snd p) && Qltb (snd p) ymax
+  | B0 => fun p => Qltb xmin (fst p) && Qltb (fst p) xmax && Qltb ymin (snd p) && Qltb (snd p) ymax
   | B90 =>
     let ctr := rect_center xmin xmax ymin ymax in
     let xext := half (ymax - ymin) in
     let yext := half (xmax - xmin) in
+    fun p =>
     Qltb (fst ctr - xext) (fst p) && Qltb (fst p) (fst ctr + xext) &&
     Qltb (snd ctr - yext) (snd p) && Qltb (snd p) (snd ctr + yext)
   | Bgen =>
-    bbox_keep (rect_corners_rot xmin xmax ymin ymax c s) p && rect_inner xmin xmax ymin ymax c s p
+    let keep := bbox_keep (rect_corners_rot xmin xmax ymin ymax c s) in
+    fun p => keep p && rect_inner xmin xmax ymin ymax c s p
   end.
 
 (* ---------- ellipse ---------- *)
@@ -155,8 +160,9 @@ Definition crossing_odd (vs : list pt) (p : pt) : bool :=
   parity (map (fun e => edge_cross p (fst e) (snd e)) (edges vs)).
 
 (* points_inside_poly: bbox pre-filter, then matplotlib's Path.contains_points (oracle: even-odd rule) *)
-Definition poly_contains (vs : list pt) (p : pt) : bool :=
-  bbox_keep vs p && crossing_odd vs p.
+Definition poly_contains (vs : list pt) : pt -> bool :=
+  let keep := bbox_keep vs in
+  fun p => keep p && crossing_odd vs p.
 
 (* ---------- polygon centre (PolygonalROI.mean / area / centroid / center, repaired closed test) ---------- *)
 Definition pt_eqb (a b : pt) : bool := Qeqb (fst a) (fst b) && Qeqb (snd a) (snd b).
@@ -170,7 +176,7 @@ Definition qlen (l : list pt) : Q := inject_Z (Z.of_nat (length l)).
 Definition poly_core (vs : list pt) : list pt := if poly_closed vs then removelast vs else vs.
 Definition poly_mean (vs : list pt) : pt :=
   let l := poly_core vs in
-  (qsum (map fst l) / qlen l, qsum (map snd l) / qlen l).
+  (Qred (qsum (map fst l) / qlen l), Qred (qsum (map snd l) / qlen l)).
 Definition cross2 (a b : pt) : Q := fst a * snd b - snd a * fst b.
 Definition rel_to (m : pt) (vs : list pt) : list pt := map (fun v => psub v m) vs.
 (* twice the signed area: consecutive pairs of the full list, plus the closing term when not closed *)
@@ -199,14 +205,14 @@ Definition poly_center (vs : list pt) : pt :=
   (Qred (fst r), Qred (snd r)).
 
 (* ---------- contains / center / move_to / rotate_to / to_polygon ---------- *)
-Definition contains (r : roi) (p : pt) : bool :=
+Definition contains (r : roi) : pt -> bool :=
   match r with
-  | Rect x0 x1 y0 y1 b c s => rect_contains x0 x1 y0 y1 b c s p
-  | Ellipse xc yc rx ry b c s => ell_contains xc yc rx ry b c s p
-  | Circle xc yc r => circle_contains xc yc r p
-  | Annulus xc yc ri ro => annulus_contains xc yc ri ro p
-  | Range isx lo hi => range_contains isx lo hi p
-  | Poly vs => poly_contains vs p
+  | Rect x0 x1 y0 y1 b c s => rect_contains x0 x1 y0 y1 b c s
+  | Ellipse xc yc rx ry b c s => ell_contains xc yc rx ry b c s
+  | Circle xc yc r => circle_contains xc yc r
+  | Annulus xc yc ri ro => annulus_contains xc yc ri ro
+  | Range isx lo hi => range_contains isx lo hi
+  | Poly vs => poly_contains vs
   end.
 
 (* RangeROI.center() is a scalar: reported as (centre, centre) so that translation by it acts on the ranged axis *)
@@ -295,8 +301,9 @@ Definition near (eps : Q) (r : roi) (p : pt) : bool :=
   | Poly vs => existsb (fun e => Qleb (seg_dist2 p (fst e) (snd e)) (sq eps)) (edges vs)
   end.
 
-Definition classify (eps : Q) (r : roi) (p : pt) : verdict :=
-  if near eps r p then Near else if contains r p then In else Out.
+Definition classify (eps : Q) (r : roi) : pt -> verdict :=
+  let ct := contains r in
+  fun p => if near eps r p then Near else if ct p then In else Out.
 
 (* ---------- Projected3dROI.contains3d: homogeneous projection, then the 2-d region ---------- *)
 Definition dot4 (row : list Q) (x y z : Q) : Q :=
@@ -311,10 +318,12 @@ Definition project (m : list (list Q)) (x y z : Q) : option pt :=
     if Qeqb w 0 then None else Some (Qred (dot4 r0 x y z / w), Qred (dot4 r1 x y z / w))
   | _ => None
   end.
-Definition classify3d (eps : Q) (m : list (list Q)) (r : roi) (p3 : Q * Q * Q) : verdict :=
+Definition classify3d (eps : Q) (m : list (list Q)) (r : roi) : Q * Q * Q -> verdict :=
+  let cl := classify eps r in
+  fun p3 =>
   match project m (fst (fst p3)) (snd (fst p3)) (snd p3) with
   | None => Near
-  | Some p => classify eps r p
+  | Some p => cl p
   end.
 
 (* ---------- CategoricalROI.contains: membership of the code in the sorted unique category codes ---------- *)
@@ -380,8 +389,9 @@ Definition run_case (t : tree) : tree :=
       if undefined_roi r0 then err 1 else
       let r1 := apply_ops r0 (map dec_op ops) in
       let ctr := center r1 in
+      let cl := classify (dec_q eps) r1 in
       T 0 [T 0 [enc_q (Qred (fst ctr)); enc_q (Qred (snd ctr))];
-           T 0 (map (fun p => enc_verdict (classify (dec_q eps) r1 (dec_pt p))) pts)]
+           T 0 (map (fun p => enc_verdict (cl (dec_pt p))) pts)]
     end
   | T 2 [eps; T _ m; r; T _ ops; T _ pts] =>
     match dec_roi r with
@@ -390,7 +400,8 @@ Definition run_case (t : tree) : tree :=
       if undefined_roi r0 then err 1 else
       let r1 := apply_ops r0 (map dec_op ops) in
       let mm := map (fun row => map dec_q (kids row)) m in
-      T 0 (map (fun p => enc_verdict (classify3d (dec_q eps) mm r1 (dec_p3 p))) pts)
+      let cl := classify3d (dec_q eps) mm r1 in
+      T 0 (map (fun p => enc_verdict (cl (dec_p3 p))) pts)
     end
   | T 3 [cats; xs] => bools (map (cat_contains (to_zs cats)) (to_zs xs))
   | _ => err 2
